@@ -18,6 +18,9 @@ CATALOGUE = [
     'txt:The signature is OK I think\n',
     'txt:xx Verification status: OK xx\n',      # the newer tool's verdict phrase inside a longer line
     'txt:Verification status: OK?\n',
+    # a diagnostic line that ends in the verdict word (text echoed from the document), then the real verdict
+    'txt:func=xmlSecTransformNodeRead:error=1:href=urn:x#OK\nFAIL\nSignedInfo References (ok/all): 0/1\n',
+    'txt:func=xmlSecTransformNodeRead:error=1:href=urn:x#OK\nError: signature failed\nERROR\n',
     'stdout-OK',             # OK only on stdout
     'badbytes',              # undecodable stderr
     'out-absent',            # output file removed
